@@ -66,7 +66,7 @@ def run(ctx):
                 window.append([wa, rnd.randint(1, ext - wa)])
             # which of the two attributes this step assigns, and in which order; the other one keeps its value
             steps.append({"coeffs": cspec, "origin": None if o is None else [o.numerator, o.denominator],
-                          "order": rnd.choice(["co", "oc", "c", "o", "c", "o"]), "via": rnd.randint(0, 1), "region": region, "window": window})
+                          "order": rnd.choice(["co", "oc", "c", "o", "c", "o"]), "via": rnd.randint(0, 1), "ints": rnd.random() < 0.5, "region": region, "window": window})
         cases.append({"dtype": dt, "shape": shape, "raw": raw, "steps": steps})
     impl = ctx.run_impl_cases("impl_calib.py", cases, jobs=8, timeout=3000)
     import numpy as np
@@ -150,7 +150,7 @@ def run(ctx):
                 "Horner exact), coefficient lists of length 0-5 incl. zeros and None, origin in {None, 0, non-zero}, 1-4 set/clear "
                 "steps per array; per step: whole read vs the model (exact rationals) and vs the polynomial specification in "
                 "Gallina; array[region], view[:] and tagged_data(0)[:] vs the whole read (commutation); the calibration is assigned "
-                "through either of two Python objects of the array, the whole read is repeated through the other object, and the "
+                "(whole numbers as Python ints in half of the steps) through either of two Python objects of the array, the whole read is repeated through the other object, and the "
                 "view and tagged view kept from the previous step are read again after the change; raw h5py read of the "
                 "dataset (values and dtype) after every change; result dtype.",
         "disagreements": len(disagreements), "spec_failures": len(failures),
